@@ -51,6 +51,15 @@ def instances(tier):
     # word-boundary instances: constant backdrop, symbolic windows of 2 symbols at both ends of text and pattern
     bd = {"VK_BACKDROP": None, "VK_W1": 2, "VK_W2": 2, "VK_BD_A": 0, "VK_BD_B": 2, "VK_BD_MOD": 13}
     edge = [(6, 65, 64), (6, 64, 63), (2, 64, 63), (3, 34, 33)] if tier == "quick" else [(3, 34, 33), (3, 40, 32), (6, 65, 64), (6, 64, 63), (6, 66, 65), (6, 64, 64), (2, 64, 63), (2, 63, 62), (3, 130, 129), (3, 129, 128), (3, 66, 65), (3, 200, 192)]
+    # distances above 255 (a narrow integer anywhere between the kernel and the float matrix would wrap): text and pattern
+    # backdrops of different symbols, so the distance is about the pattern length
+    far = dict(bd, VK_BD_B2=5, VK_W1=0, VK_W2=2, VK_PW1=0, VK_PW2=0)
+    for n, m in ([(322, 320)] if tier == "quick" else [(322, 320), (260, 257), (300, 256), (580, 576)]):   # pattern = whole 64-symbol blocks: no padding iterations after the symbolic text tail
+        i = _mk(6, n, m, "O4", extra=far, name="far_m6_n%d_m%d" % (n, m), timeout=900 if tier == "quick" else 3600, mem_gb=10)
+        i.nb = 16
+        i.flags = list(i.flags) + ["--max-field-sensitivity-array-size", "600"]   # reads of the (mostly concrete) text / pattern arrays stay concrete
+        i.bound = "text %d of symbol 2, pattern %d of symbol 5 (distance about %d), last 2 symbols of the text symbolic over 13 classes (partially symbolic instance)" % (n, m, m)
+        out.append(i)
     for mode, n, m in edge:
         i = _mk(mode, n, m, "O4", extra=bd, name="edge_m%d_n%d_m%d" % (mode, n, m), timeout=900 if tier == "quick" else 3600, mem_gb=10)
         i.nb = 16
